@@ -1032,6 +1032,71 @@ func (s *Server) handleDecline(req *dhcpv4.DHCPv4) {
 		if pool := s.poolMgr.GetPool(lease.PoolID); pool != nil {
 			pool.MarkUnavailable(declinedIP)
 		}
+
+		// The session is over: stop accounting and remove its QoS policy, NAT
+		// allocation and fast path cache entries, as RELEASE does
+		s.releaseLeaseResources(mac, lease, radius.TerminateCauseLostService)
+	}
+}
+
+// releaseLeaseResources tears down everything a lease held besides the lease
+// table entry and the pool reservation: accounting (Stop), QoS policy, NAT
+// allocation and every fast path cache entry (by MAC, VLAN pair, circuit-id).
+// Used by the termination paths other than RELEASE (DECLINE, lease expiry).
+func (s *Server) releaseLeaseResources(mac net.HardwareAddr, lease *Lease, terminateCause uint32) {
+	if lease == nil {
+		return
+	}
+
+	if s.radiusClient != nil && lease.SessionID != "" {
+		sessionTime := uint32(time.Since(lease.SessionStart).Seconds())
+		go func() {
+			err := s.radiusClient.SendAccounting(context.Background(), &radius.AcctRequest{
+				SessionID:      lease.SessionID,
+				Username:       mac.String(),
+				MAC:            mac,
+				FramedIP:       lease.IP,
+				StatusType:     radius.AcctStatusStop,
+				InputOctets:    lease.InputBytes,
+				OutputOctets:   lease.OutputBytes,
+				SessionTime:    sessionTime,
+				TerminateCause: terminateCause,
+				Class:          lease.Class,
+			})
+			if err != nil {
+				s.logger.Warn("Failed to send RADIUS Accounting-Stop",
+					zap.String("session_id", lease.SessionID),
+					zap.Error(err),
+				)
+			}
+		}()
+	}
+
+	if s.qosMgr != nil {
+		if err := s.qosMgr.RemoveSubscriberQoS(lease.IP); err != nil {
+			s.logger.Warn("Failed to remove QoS policy", zap.String("ip", lease.IP.String()), zap.Error(err))
+		}
+	}
+
+	if s.natMgr != nil {
+		if err := s.natMgr.DeallocateNAT(lease.IP); err != nil {
+			s.logger.Warn("Failed to deallocate NAT", zap.String("ip", lease.IP.String()), zap.Error(err))
+		}
+	}
+
+	if s.loader != nil {
+		if len(mac) >= 6 {
+			s.loader.RemoveSubscriber(ebpf.MACToUint64(mac))
+		}
+		if (lease.STag > 0 || lease.CTag > 0) && s.loader.HasVLANSupport() {
+			s.loader.RemoveVLANSubscriber(lease.STag, lease.CTag)
+		}
+		if len(lease.CircuitID) > 0 {
+			s.loader.RemoveCircuitIDMapping(lease.CircuitID)
+			if s.loader.HasCircuitIDSubscriberSupport() {
+				s.loader.RemoveCircuitIDSubscriber(lease.CircuitID)
+			}
+		}
 	}
 }
 
